@@ -853,6 +853,12 @@ pub fn record_main(args: &[String]) -> i32 {
             };
             maps_used += 1;
             record_sessions(&mut rec, &mut rng, t, &conv, cfg, &format!("fixture {id} [{start}..{end}] as {t} cfg {ci} {:?}", cfg.acronyms));
+            if t == "taiko" {
+                // the lazer Random mod with a seed recolours the hits: always covered (a taiko-mode lazer set, see settings::Cfg)
+                let cfg = crate::settings::Cfg { random_seed: Some(7), da_scroll: Some(1.0), mods: 16, ..Default::default() };
+                maps_used += 1;
+                record_sessions(&mut rec, &mut rng, t, &conv, &cfg, &format!("fixture {id} [{start}..{end}] as taiko with RD"));
+            }
             if t == "mania" {
                 // the mods that rewrite the mania object list are always covered
                 for a in ["IN", "HO", "IN,HO", "MR", "IN+RD", "RD"] {
